@@ -794,6 +794,22 @@ def adapt_function(text, where, subs, report):
         ft.relex()
         ads.append({"rule": "D6", "what": f"{n} format! call(s) rewritten to fmt_concat"})
 
+    # D19: `.assoc Name=Type ...` — a trait-impl method is verified as an inherent method (Verus loses the iterator
+    # specifications inside trait-impl bodies); `Self::Name` is replaced by the type the impl block binds it to.
+    for sd in subs:
+        if sd["kw"] != "assoc":
+            continue
+        pairs = dict(p.split("=", 1) for p in sd["args"].split())
+        sig = ft.sig
+        nrep = 0
+        for k in range(len(sig) - 3):
+            if sig[k].text == "Self" and sig[k + 1].text == ":" and sig[k + 2].text == ":" and sig[k + 3].text in pairs:
+                ft.edits.append((sig[k].s, sig[k + 3].e - sig[k].s, pairs[sig[k + 3].text]))
+                nrep += 1
+        ft.apply_edits()
+        ft.relex()
+        ads.append({"rule": "D19", "what": f"trait-impl method placed in an inherent impl; {nrep} occurrence(s) of Self::<assoc type> replaced by {pairs}"})
+
     # D15: explicit type on a `let` whose type rustc can only infer from later (executable) uses, which the
     # spliced invariants precede:  `.lettype NAME as TYPE`   `let mut NAME = e;` -> `let mut NAME: TYPE = e;`
     for sd in subs:
@@ -1122,6 +1138,9 @@ def adapt_type(src, found, kind, name, report):
                     gen = "".join(hk[2:idx + 1]).replace(",", ", ")
                     break
     tyname = name + gen
+    if not txt.lstrip().startswith("pub"):
+        txt = "pub " + txt.lstrip()
+        report["adaptations"].append({"rule": "D18", "what": "private type made `pub` in the single-file unit (visibility only)"})
     fieldless = kind == "enum" and not any(t.text in "({" for t in s2[[i for i, t in enumerate(s2) if t.text == "{"][0] + 1:-1])
     out = []
     ads = report["adaptations"]
